@@ -37,7 +37,7 @@ RULE = ("case = (body program, wrapper stack of depth 1..3, drive sequence of 1.
         "or handler, 'ignored GeneratorExit', wrapper stack depth >= 2, a real Future passing through (flag observed), "
         "a value held by CoroStart, athrow/aclose entry; distinct = hash of the canonical case line")
 
-PURE = ["citer", "coro_await", "am", "ami", "mon", "bmon", "ref"]
+PURE = ["citer", "coro_await", "am", "ami", "mon", "bmon", "masend", "ref"]
 EAGER = ["cs_await", "cs_ascoro"]
 SENDS = ["s:0", "s:0", "s:3", "s:4"]
 
@@ -106,6 +106,9 @@ def judge(layers, stmts, drives, loop):
     for fl in info.get("out_flags", []):
         if not fl:
             bad = ("future yielded outward with its blocking flag clear", "flag True", "flag False")
+    if bad is None and info.get("held_probe_fail"):
+        bad = ("a Future held by CoroStart cannot be awaited by anybody else (blocking flag left set)",
+               "second awaiter is suspended on the future", info["held_probe_fail"])
     if bad is None:
         if special:
             if not outs_b or not outs_b[0].startswith("y:"):
@@ -158,9 +161,11 @@ def shrink(layers, stmts, drives, loop):
 
 
 def key_of(layers, drives, bad):
+    if "held by CoroStart" in bad[0]:
+        return "c02:CoroStart:held-future-blocking"
     kinds = sorted({x.split(":")[0] for x in layers})
     last = drives[-1].split(":")
-    lastk = {"s": "send", "t": "throw-" + (last[1] if len(last) > 1 else ""), "c": "close"}[last[0]]
+    lastk = {"s": "send", "t": "genexit" if last[-1] == "GenExit" else "throw", "c": "genexit"}[last[0]]
     what = "flag" if "flag" in bad[0] else ("inside" if "inside" in bad[0] else "outward")
     return f"c02:{'+'.join(kinds)}:{lastk}:{what}"
 
@@ -288,7 +293,7 @@ def run(ctx):
     loop = asyncio.new_event_loop()
     try:
         explore(ctx, corpus_cases(), loop, label="corpus: ")
-        n = 40000 if ctx.thorough() else 5000
+        n = 120000 if ctx.thorough() else 5000
         batch = 3000
         first = True
         while n > 0:
